@@ -286,6 +286,11 @@ func mkConfig(c *vlib.Ctx, cf config, depth int, prefix []string) hsx.Config {
 							mustHave = append(mustHave, k)
 						}
 					case "rename":
+						// a stream left over from a file that used to be at the target path (deleted, not yet observed)
+						// notices that first: a rename onto a path that still has a stream is a rotation of that path
+						// (C16), whatever the directory says
+						t.Streams.Broadcast()
+						vrt.Quiesce()
 						err = os.Rename(o.f, o.g)
 						// the old path's stream is woken at once so that it notices the path is gone; otherwise it
 						// would keep following the renamed inode under the old name, which is rotation (C16), not C18
